@@ -112,10 +112,18 @@ def build(script, obs_lines):
                 sid=script["id"])]
     closed = False
     byi = {o["i"]: o for o in obs_lines}
+    # connections the fake dialer disposed of itself (offered to a dial whose context was already
+    # cancelled): they never reached corebgp, so every stimulus on them is a no-op for the spec
+    void = set()
+    for o in obs_lines:
+        void.update(o.get("void") or [])
     for i, st in enumerate(script["steps"]):
         if i not in byi:
             break
-        out.extend(stim_lines(script, i, st))
+        for ln in stim_lines(script, i, st):
+            if ln["conn"] and ln["conn"] in void:
+                ln = line("stim", op="nop", sid=script["id"], racy=ln["racy"])
+            out.append(ln)
         if st["op"] == "close" or any(x["op"] == "close" for x in st.get("multi") or []):
             closed = True
         o = byi[i]
